@@ -454,6 +454,12 @@ def _frozen(ix, rep, cls, f, load, d):
                 for s in ast.walk(g.node):
                     if isinstance(s, ast.Subscript) and isinstance(s.ctx, ast.Store) and isinstance(s.value, ast.Attribute) and s.value.attr == 'var_type_dict':
                         others.append(g.qual)
+                    # ... nor through a method that adds entries (setdefault / update / __setitem__), or by re-binding the table
+                    if isinstance(s, ast.Call) and isinstance(s.func, ast.Attribute) and s.func.attr in ('setdefault', 'update', '__setitem__') \
+                            and isinstance(s.func.value, ast.Attribute) and s.func.value.attr == 'var_type_dict':
+                        others.append(g.qual)
+                    if isinstance(s, ast.Assign) and g.name != '__init__' and any(isinstance(t, ast.Attribute) and t.attr == 'var_type_dict' for t in s.targets):
+                        others.append(g.qual)
         if not (writes_type and writes_io and not others):
             return None
         # the load is preceded by try: create_var_from_name(key) ... except KeyError: (raise | declare_var(...))
@@ -1813,3 +1819,43 @@ def check_subspec_registration(ix, rep, rule='R-EVERYPATH'):
         rep.fail(rule, f.module.rel, f.qual, 'add_sub_spec', 'a path through add_sub_spec() returns without appending the given text to modular_spec: what parse() checks is then not what '
                  'the user registered (a text that is not in the language is accepted because part of it was dropped)', f.node.lineno)
     return 1
+
+
+def check_dispatch_transparent(ix, rep, rule='R-FRESH'):
+    """every occurrence of a sub-formula in the text is a node of its own (only an identifier that names a sub-specification stands for an existing node):
+    the pastifier gives each occurrence the delay of *its* position and re-points names at the first node it meets, get_value() reads results[node].
+    The builders reach their operands through `self.visit(ctx.x())`, the dispatch inherited from the ANTLR runtime.  If a parser visitor class
+    overrides `visit`, each of its returns has to be the result of the delegating call for that very tree -- not an entry of a table filled by an
+    earlier call (a memo keyed by the text, which drops the white space between `H` and `x`, or by the printed name)."""
+    n = 0
+    ltl, stl, absast = parser_classes(ix)
+    for cls in (ltl, stl):
+        f = cls.methods.get('visit')
+        n += 1
+        slot = '%s.visit' % cls.name
+        if f is None:
+            rep.ok(rule, cls.module.rel, cls.name, slot, 'the dispatch of the ANTLR runtime is used as it is', cls.node.lineno)
+            continue
+        rep.analysed(f)
+        deleg = {}
+        for st in ast.walk(f.node):
+            if isinstance(st, ast.Assign) and len(st.targets) == 1 and isinstance(st.targets[0], ast.Name):
+                deleg.setdefault(st.targets[0].id, []).append(st.value)
+
+        def is_delegation(e, depth=0):
+            if isinstance(e, ast.Call) and isinstance(e.func, ast.Attribute) and e.func.attr == 'visit' and isinstance(e.func.value, ast.Call) \
+                    and isinstance(e.func.value.func, ast.Name) and e.func.value.func.id == 'super':
+                return True
+            if isinstance(e, ast.Call) and isinstance(e.func, ast.Attribute) and e.func.attr in ('visit', 'accept') and not ast.unparse(e.func.value).startswith('self.'):
+                return ast.unparse(e.func.value) not in ('self',)          # Base.visit(self, tree) / tree.accept(self)
+            if isinstance(e, ast.Name) and e.id in deleg and depth < 3:
+                return all(is_delegation(v, depth + 1) for v in deleg[e.id])
+            return False
+        bad = [r for r in ast.walk(f.node) if isinstance(r, ast.Return) and not (r.value is not None and is_delegation(r.value))]
+        if bad:
+            rep.fail(rule, f.module.rel, f.qual, slot, 'the parser\'s visit() can return `%s`, which is not the node built for this occurrence: two occurrences share one node (the pastifier '
+                     'delays a shared node by the look-ahead of the first position it is met at, and a name bound to it follows), and a table keyed by the text or the printed name '
+                     'takes `H x` for the identifier `Hx`' % (ast.unparse(bad[0].value)[:60] if bad[0].value is not None else 'None'), bad[0].lineno)
+        else:
+            rep.ok(rule, f.module.rel, f.qual, slot, 'every return is the result of the delegating call', f.node.lineno)
+    return n
